@@ -21,6 +21,7 @@
     scalars (`roundtrip_temporal`, `passthrough_temporal`).
 -/
 import TypelibModel.Lemmas.TemporalText
+import TypelibModel.Lemmas.EnumRT
 import TypelibModel.Props.C01
 import TypelibModel.Props.C13
 namespace Typelib.C04
@@ -163,32 +164,63 @@ theorem leaf_passthrough (env : Env) (today : Int) : ∀ s v, S1 s = true → ha
     (pyLeaves env today).um s v = .ok v :=
   pyLeaves_pass_temporal env today
 
-theorem leafLaws_S1 (env : Env) (today : Int) (h : ∀ c i, memberValue env c i = none) :
+/-- `LeafLaws` on S1 under the decidable enum side condition `enumWF` (Lemmas/EnumRT.lean). -/
+theorem leafLaws_S1 (env : Env) (today : Int) (h : enumWF env = true) :
     LeafLaws S1 env (pyLeaves env today) :=
   { rt := leaf_roundtrip env today
-    enumRT := by intro c i w hw; rw [h c i] at hw; cases hw }
+    enumRT := pyLeaves_enumRT env today h }
 
 /-- C01's round trip over annotations whose scalars are int, bool, float, str, date, datetime, time,
-    timedelta (any composite constructor, class flavour, wrapper, recursion; no enum). -/
+    timedelta (any composite constructor, class flavour, wrapper, recursion) and whose enum classes
+    pass the decidable check `enumWF`. -/
 theorem roundtrip_temporal (env : Env) (today : Int) (hE : wfEnv S1 env = true)
-    (hne : ∀ c i, memberValue env c i = none) (n : Nat) (t : Ty) (v : Val)
+    (hne : enumWF env = true) (n : Nat) (t : Ty) (v : Val)
     (hwf : wfTy S1 env t = true) (hty : hasType env n t v = true) :
     ∃ m, mar env (pyLeaves env today) n t v = .ok m ∧ um env (pyLeaves env today) n t m = .ok v :=
   C01.roundtrip S1 env (pyLeaves env today) hE (leafLaws_S1 env today hne) n t v hwf hty
 
-theorem passLaws_S1 (env : Env) (today : Int) (hns : ∀ c, isStrMixin env c = false) :
+/-- The former statement of `roundtrip_temporal` (no enum members) is a corollary. -/
+theorem roundtrip_temporal_noEnums (env : Env) (today : Int) (hE : wfEnv S1 env = true)
+    (hne : ∀ c i, memberValue env c i = none) (n : Nat) (t : Ty) (v : Val)
+    (hwf : wfTy S1 env t = true) (hty : hasType env n t v = true) :
+    ∃ m, mar env (pyLeaves env today) n t v = .ok m ∧ um env (pyLeaves env today) n t m = .ok v :=
+  roundtrip_temporal env today hE (enumWF_of_noEnums env hne) n t v hwf hty
+
+theorem passLaws_S1 (env : Env) (today : Int) :
     C13.PassLaws S1 hasScalar (fun vs v => Val.exactMem v vs) env (pyLeaves env today) :=
   { leafPass := leaf_passthrough env today
-    litPass := fun vs v hp hm => (C01.literal_pyMem env vs v hp hm).1
-    enumPass := C13.enumPass_of_noStrMixin env _ hns }
+    litPass := fun vs v hp hm => (C01.literal_pyMem env vs v hp hm).1 }
 
-/-- C13's pass-through over annotations whose scalars are in S1 (enums without str mix-in). -/
+/-- C13's pass-through over annotations whose scalars are in S1 and every enum (str mix-in or not):
+    no condition on the enum classes is left. -/
 theorem passthrough_temporal (env : Env) (today : Int) (hE : wfEnv S1 env = true)
-    (hns : ∀ c, isStrMixin env c = false) (n : Nat) (t : Ty) (v : Val)
+    (n : Nat) (t : Ty) (v : Val)
     (hwf : wfTy S1 env t = true) (hty : hasType env n t v = true) :
     um env (pyLeaves env today) n t v = .ok v :=
   C13.passthroughG S1 hasScalar (fun vs v => Val.exactMem v vs) env (pyLeaves env today) hE
-    (passLaws_S1 env today hns) n t v hwf hty
+    (passLaws_S1 env today) n t v hwf hty
+
+/-- Non-vacuity with enums: `class Kind(Enum): D = "1"; W = "w"`,
+    `@dataclass class Ev: kind: Kind; at: datetime; every: dict[Kind, timedelta]`. -/
+def exEvEnv : Env :=
+  [{ flavour := .plain, members := [("D".toList, .str "1".toList), ("W".toList, .str "w".toList)] },
+   { flavour := .dataclass,
+     fields := [("kind".toList, .enum 0), ("at".toList, .scalar .datetime),
+                ("every".toList, .dict (.enum 0) (.scalar .timedelta))],
+     required := ["kind".toList, "at".toList, "every".toList] }]
+
+def exEv : Val :=
+  .inst 1 [("kind".toList, .member 0 0), ("at".toList, .datetime 1700000000123456 (-34200)),
+           ("every".toList, .dict [(.member 0 1, .timedelta (-1))])]
+
+example : enumWF exEvEnv = true := by decide
+example : wfEnv S1 exEvEnv = true := by decide
+example : hasType exEvEnv 4 (.cls 1) exEv = true := by decide
+example : ∃ m, mar exEvEnv (pyLeaves exEvEnv) 4 (.cls 1) exEv = .ok m
+    ∧ um exEvEnv (pyLeaves exEvEnv) 4 (.cls 1) m = .ok exEv :=
+  roundtrip_temporal exEvEnv 0 (by decide) (by decide) 4 _ _ (by decide) (by decide)
+example : um exEvEnv (pyLeaves exEvEnv) 4 (.cls 1) exEv = .ok exEv :=
+  passthrough_temporal exEvEnv 0 (by decide) 4 _ _ (by decide) (by decide)
 
 example : wfTy S1 [] (.coll .list (.scalar .datetime)) = true := by decide
 example : hasType [] 3 (.coll .list (.scalar .datetime)) (.list [.datetime (-62135600400000000) 3600]) = true := by
